@@ -9,7 +9,7 @@ from guards import is_int, is_call, find_calls
 H = r'⟨H(\d+)⟩'
 AT = r'(?:# \[ (?!repr|derive|doc |default)(?:[^\[\]]|\[[^\[\]]*\])* \] )*'      # harmless extra attributes (#[allow(..)], #[inline], ..)
 VIS = AT + r'ALT(\d+)\{  \|\| pub \}'
-DOCS = r'ALT\d+\{  \|\| REP(\d+)\( ⟨E\d+:# \[ doc = ⟨H\d+⟩ \]⟩ \)\* \}'
+DOCS = r'ALT\d+\{  \|\| REP(\d+)\( (?:⟨E\d+:)?# \[ doc = ⟨H\d+⟩ \](?:⟩)? \)\* \}'
 
 WRAP = re.compile(r'(rust::str_to_ident|rust::sa_type_to_syn_type|rust::hex_literal|convert::Into::into|::into|Deref::deref|deref|as_str|as_deref|ItemPathSegment::as_str|'
                   r'Option::<T>::as_ref|context::context|Context::context|CallingConvention::as_str|clone|to_string)$')
@@ -339,7 +339,7 @@ def struct_rules(ctx, item):
     ctx.ob(['C06', 'C04', 'C13'], 'R-TMPL', 'struct|vftable-accessor', okv,
            'vftable() returns self.<base field>.vftable() when the pointer lives in a base, self.vftable otherwise, cast to the type\'s own table pointer type: %s' % det, where)
     # methods
-    reps = re.findall(r'REP(\d+)\( ⟨E\d+:ALT\d+\{  \|\| REP\d+\( ⟨E\d+:# \[ doc', s)
+    reps = re.findall(r'REP(\d+)\( ⟨E\d+:ALT\d+\{  \|\| REP\d+\( (?:⟨E\d+:)?# \[ doc', s)
     srcs = []
     for r_ in reps:
         r, info = item.rep_info(r_)
@@ -944,6 +944,14 @@ def helpers(ctx):
             info = (fl.reps[0][3] or [None])[0]
             chain = [c[0] for c in (info or {}).get('chain', [])]
             okd = chain == ['lines', 'map'] and fl.alts[1][1][0].endswith('=True') and show(strip([h for h in fl.holes if h[0] == int(m.group(1))][0][1])) == show(strip([h for h in fl.holes if h[0] == int(m.group(2))][0][1]))
+        m3 = re.fullmatch(r'ALT0\{  \|\| REP0\( ALT1\{ # ! \[ doc = ' + H + r' \] \|\| # \[ doc = ' + H + r' \] \} \)\* \}', s)
+        if not okd and m3:
+            # the same with a `for line in doc.lines()` loop that appends one of the two forms per line
+            srcs = fl.reps[0][1] if fl.reps else []
+            src_ok = len(srcs) == 1 and bool([c_ for c_ in calls_in(srcs[0]) if c_[1].endswith('::lines')]) and not any(
+                re.search(r'Iterator::(rev|skip|take|filter|step_by|map_while|scan|take_while|skip_while|fuse|cycle)$', c_[3]) for c_ in calls_in(srcs[0]))
+            okd = src_ok and fl.alts[1][1][0].endswith('=True') and strip(fl.alts[1][3][0][0][0] if (len(fl.alts[1]) > 3 and fl.alts[1][3] and fl.alts[1][3][0]) else ('x',))[0] == 'arg' and \
+                show(strip([h for h in fl.holes if h[0] == int(m3.group(1))][0][1])) == show(strip([h for h in fl.holes if h[0] == int(m3.group(2))][0][1]))
         m2 = re.fullmatch(r'OPT0\[ REP0\( ALT0\{ # ! \[ doc = ' + H + r' \] \|\| # \[ doc = ' + H + r' \] \} \)\* \]', s)
         if not okd and m2:
             # the same written as a loop that extends the stream, under `if let Some(doc)`
